@@ -422,6 +422,18 @@ def scan_family():
                 fail("scan.edit_regenerate: applying the backward request does not restore the score")
         except NotImplementedError:
             fail("scan.edit_regenerate: the backward request (VectorRequest) is rejected by Scan.edit: NotImplementedError")
+    # regenerate with changed scanned inputs (unchanged carry), also with an empty selection: every iteration is re-visited
+    args2 = (0.0, jnp.array([2., 20., 200., 2000.]))
+    for sel in (S.none(), S.all(), S.at["q"]):
+        new, w, rd, _ = Regenerate(sel).edit(KEY, tr, (Diff(0.0, NoChange), Diff(args2[1], UnknownChange)))
+        wf(new, f"scan.edit_regenerate[changed xs, {sel}]")
+        if not (close(w, new.get_score() - tr.get_score()) and close(new.get_args()[1], args2[1]) and close(new.get_retval()[0], 2222.0)):
+            fail("scan.edit_regenerate with changed scanned inputs: weight / arguments / final carry are not those of the loop on "
+                 "the new inputs", selection=sel, w=w, want=new.get_score() - tr.get_score(), carry=new.get_retval()[0])
+    g, gw = sa.importance(KEY, C.empty().at[1, "z"].set(0.5), args)
+    wf(g, "scan.generate[partial constraint]")
+    if close(g.get_score(), gw):
+        fail("scan.generate with a partial constraint: the trace score equals the weight (sampled choices' densities missing)")
     step = gen(lambda x: normal(x, 1.0) @ "s")
     f = step.masked_iterate_final()
     tr = f.simulate(KEY, (0.0, jnp.array([True, False, True])))
@@ -525,6 +537,57 @@ def static_family():
     except Exception as e:
         if type(e).__name__ != "MissingAddress":
             fail("static.assess: wrong exception for a missing address", err=type(e).__name__)
+    # tuple addresses that share components: duplicates written as one-component tuples, siblings missing from an assess sample
+
+    def dup_tuple(addr):
+        @gen
+        def f():
+            return normal(0.0, 1.0) @ addr + normal(0.0, 1.0) @ addr
+        return f
+    for addr in (("x",), ("a", "x")):
+        for op in ("simulate", "importance"):
+            try:
+                dup_tuple(addr).simulate(KEY, ()) if op == "simulate" else dup_tuple(addr).importance(KEY, C.empty(), ())
+                fail(f"static.{op}: tracing the tuple address {addr} twice did not raise AddressReuse")
+            except Exception as e:
+                if type(e).__name__ != "AddressReuse":
+                    fail(f"static.{op}: wrong exception for reuse of a tuple address", addr=addr, err=type(e).__name__)
+
+    @gen
+    def callee2():
+        return normal(0.0, 1.0) @ "z"
+
+    @gen
+    def siblings():
+        p = normal(0.0, 1.0) @ ("n", "p")
+        q = callee2() @ ("n", "q")
+        r = normal(0.0, 1.0) @ ("n", "r")
+        return p + q + r
+    for sample, want in ((C.d({("n", "p"): 0.1, ("n", "q", "z"): 0.2}), ("n", "r")), (C.d({("n", "p"): 0.1, ("n", "r"): 0.3}), None)):
+        try:
+            siblings.assess(sample, ())
+            fail("static.assess: a visited address missing from the sample (its sibling is supplied) did not raise MissingAddress")
+        except Exception as e:
+            if type(e).__name__ != "MissingAddress" or (want is not None and e.args[0] != want):
+                fail("static.assess: a missing sibling address is not reported as MissingAddress(that address)", err=f"{type(e).__name__}{e.args}", want=want)
+    # update with a structured argument (a tuple) one of whose leaves changes at an unconstrained call site
+
+    @gen
+    def takes_pair(pair):
+        return normal(pair[0] + pair[1], 1.0) @ "w"
+
+    @gen
+    def outer(a):
+        u = normal(a, 1.0) @ "u"
+        w = takes_pair((u, 1.0)) @ "c"
+        return w
+    t0 = outer.simulate(KEY, (0.0,))
+    new, w, rd, _ = outer.edit(KEY, t0, Update(C.kw(u=2.5)), Diff.no_change((0.0,)))
+    wf(new, "static.update[structured callee argument changed through an upstream constraint]")
+    s_ref, _ = outer.assess(new.get_choices(), (0.0,))
+    if not (close(new.get_score(), s_ref) and close(w, s_ref - t0.get_score())):
+        fail("static.update: a callee whose STRUCTURED argument changed (its own address unconstrained) is not re-scored",
+             score=new.get_score(), assess=s_ref, w=w, want=s_ref - t0.get_score())
 
 
 def closure_family():
@@ -667,6 +730,14 @@ def choice_map_family():
     for k in (0, 1):
         sw2 = C.switch(jnp.array(k), [u, C.empty()])
         expect(f"switch[{k}] over an index-level union", sw2, full if k == 0 else {}, AI)
+    n1, n2 = C.d({("p", "q", "x"): 1.0, ("p", "r"): 2.0}), C.d({("p", "q", "y"): 3.0, ("p", "q", "x"): 4.0, ("p", "s"): 4.0})
+    A3 = [("p", "q", "x"), ("p", "q", "y"), ("p", "r"), ("p", "s"), ("p", "q"), ("p",), ("q",)]
+    expect("| below a shared prefix of length two", n1 | n2,
+           {("p", "q", "x"): (True, 1.0), ("p", "q", "y"): (True, 3.0), ("p", "r"): (True, 2.0), ("p", "s"): (True, 4.0)}, A3)
+    if not bool((n1 | n2).get_selection()["p", "q", "y"]):
+        fail("choice map get_selection of a deep union misses an address of the right operand")
+    lm = C.kw(x=1.0).mask(jnp.array(False)) | C.kw(x=2.0)
+    expect("masked-off (traced flag) left leaf falls through under a static level", lm, {("x",): (True, 2.0)}, [("x",)])
     sel = (m1 | m2).get_selection()
     for a, want in ((("x",), True), (("g", "y"), True), (("g",), False), (("q",), False)):
         if bool(sel[a]) != want:
